@@ -240,6 +240,7 @@ def run(tier, seed):
     chk.sample({"client_data": '{"type":"t","challenge":123,"origin":"o"}', "impl": impl.parse_client_data(b'{"type":"t","challenge":123,"origin":"o"}')})
     if R:
         R.close()
+    fw.env_invariance(chk, "codec")          # the same seeded cases under -O / -OO, warnings-as-errors, other TZ / locale, a private CA bundle
     return fw.finish(chk, ob, br, TRUSTED,
                      ["JSON values are those json.loads can produce (null/bool/int/float/str/list/dict with str keys); nesting depth of generated inputs <= 50",
                       "for non-string challenges the f-string formatting of floats/lists/dicts is not modelled (model answers Unmodelled; only accept/reject-class compared)"],
